@@ -9,13 +9,15 @@ def run(verdict, wd, plans, seed, workers=6, maxsteps=3000):
     """plans: list of (kind, sessions).  Adds violations to verdict; returns a coverage dict."""
     cov = {'machine_sessions': 0, 'machine_forms': 0, 'machine_instructions': 0, 'machine_out_of_model': 0,
            'machine_mismatches': 0, 'machine_tlc_states': 0}
-    for i, (kind, count) in enumerate(plans):
+    for i, plan in enumerate(plans):
+        kind, count = plan[0], plan[1]
+        extra = list(plan[2]) if len(plan) > 2 else []
         out = os.path.join(wd, 'mach%d.ndjson' % i)
         p = vlib.harness(['machine', 'kind=' + kind, 'seed=%d' % (seed + 11 * i), 'count=%d' % count, 'out=' + out,
-                          'maxsteps=%d' % maxsteps], check=False, timeout=900)
+                          'maxsteps=%d' % maxsteps] + extra, check=False, timeout=900)
         if p.returncode != 0:
             verdict.violation(['machine/abort/' + kind], 'the harness died while recording %s sessions (rc=%s)' % (kind, p.returncode),
-                              {'kind': 'machine', 'plan': [kind, count]})
+                              {'kind': 'machine', 'plan': [kind, count, extra]})
             continue
         n = sum(1 for _ in open(out))
         if n == 0:
@@ -54,15 +56,33 @@ def run(verdict, wd, plans, seed, workers=6, maxsteps=3000):
             elif isinstance(m['exp'], list) and m['exp']:
                 detail = '/' + str(m['exp'][0])
             verdict.violation(['machine/%s%s' % (what, detail)], desc,
-                              {'kind': 'machine', 'plan': [kind, count], 'seed': seed + 11 * i, 'mismatch': m})
+                              {'kind': 'machine', 'plan': [kind, count, extra], 'seed': seed + 11 * i, 'mismatch': m})
     return cov
+
+
+def design_check(verdict, wd, cfg):
+    """The two TLA+ semantics against each other (MC_Machine): Compile + Exec of Machine.tla must agree with SchemeCEK
+    on every program of the bounded grammar (every Stride-th in the quick configuration) and of the closure /
+    continuation skeleton families.  A disagreement is a defect of the design model, reported as a tool error: the
+    implementation is not involved."""
+    r = vlib.tlc('MC_Machine', cfg, os.path.join(wd, 'mcmachine'), workers=10, timeout=5400, heap='8g')
+    if r.rc != 0:
+        vlib.log(r.tail)
+        raise vlib.ToolError('MC_Machine: the compiler/VM model and the reference semantics disagree, or TLC failed (rc=%d)' % r.rc)
+    st = r.tag('SAMPLE')
+    out = {'cfg': cfg, 'programs_checked': r.distinct, 'invariant': 'Agree (same outcome, value and globals in Machine and SchemeCEK)'}
+    if st:
+        out['classification_of_a_sample'] = st[0]
+        g = st[0]['grammar']
+        if g['done'] == 0 or g['fail'] == 0:
+            raise vlib.ToolError('MC_Machine is vacuous: %s' % json.dumps(g))
+    return out
 
 
 def replay(obj):
     """Re-run the recorded plan; exit 1 if the mismatch is still there."""
     verdict = vlib.Verdict('replay')
     wd = vlib.workdir('replay-machine')
-    kind, count = obj['plan']
-    run(verdict, wd, [(kind, count)], obj.get('seed', 0) , workers=4)
+    run(verdict, wd, [tuple(obj['plan'])], obj.get('seed', 0), workers=4)
     vlib.cleanup(wd)
     return 1 if verdict.total else 0
